@@ -569,6 +569,11 @@ func (db *MultiBucketBackend) deleteObjectLocked(bucketName, objectName string) 
 
 	fullPath := path.Join(bucketName, objectName)
 
+	if isDir(db.bucketFs, filepath.FromSlash(fullPath)) {
+		// the key is a prefix of other keys, not an object: nothing to delete
+		return nil
+	}
+
 	// S3 does not report an error when attemping to delete a key that does not exist, so
 	// we need to skip IsNotExist errors.
 	if err := db.bucketFs.Remove(filepath.FromSlash(fullPath)); err != nil && !os.IsNotExist(err) {
